@@ -14,6 +14,7 @@ import re
 import urllib.parse
 
 import common
+import c07_grid
 import c07_lib as L
 import c07_unit as U
 from common import Channel
@@ -56,6 +57,7 @@ def applies(row, bit: int) -> bool:
     return bool(mask & bit)
 
 _APP = None
+_CUR_DEFAULTS = None
 
 
 def app():
@@ -63,11 +65,21 @@ def app():
     if _APP is None:
         import appboot
         _APP = appboot.get_app(("bbb", "tears"))
-        with _APP.ctx() as models:
-            s = models.Stream.get(directory="tears")
-            s.defaults = dict(STREAM_DEFAULTS)
-            models.db.session.commit()
+        set_defaults("A")
     return _APP
+
+
+def set_defaults(name):
+    """store one of the named stream-default sets on stream `tears` (part of a case's history)"""
+    global _CUR_DEFAULTS
+    if name == _CUR_DEFAULTS:
+        return
+    import copy
+    with _APP.ctx() as models:
+        s = models.Stream.get(directory="tears")
+        s.defaults = copy.deepcopy(c07_grid.DEFAULTS[name])
+        models.db.session.commit()
+    _CUR_DEFAULTS = name
 
 
 # ------------------------------------------------------------------ independent parsers (oracle side)
@@ -364,6 +376,7 @@ def run_case(case, rows, want_model=True):
     from dashlive.server.requesthandler.media_requests import LiveMedia
     a = app()
     _ = ServeManifest
+    set_defaults(case.get("defaults", "A"))
     url = case_url(case)
     mode = case["mode"]
     fails, lines, stats = [], [], {"status": None, "urls": 0, "compared": 0, "keys": []}
@@ -379,9 +392,7 @@ def run_case(case, rows, want_model=True):
                 if want:
                     with a.app.test_request_context(url):
                         stream = a.models.Stream.get(directory=case["stream"])
-                        defaults = OptionsRepository.get_default_options()
-                        if stream.defaults is not None:
-                            defaults = defaults.clone(**stream.defaults)
+                        defaults = U.server_defaults(stream.defaults)
                         dspec = U.container_spec(rows, defaults)
                     aspec = ";".join(f"{L.hx(k)}={L.hx(v)}" for k, v in case["params"].items()) or "-"
                     lines.append((f"optserve {case['manifest']} {L.hx(mode)} {dspec} {aspec}", want, "optserve",
@@ -394,9 +405,7 @@ def run_case(case, rows, want_model=True):
             mopts = ServeManifest().calculate_options(
                 mode=mode, args=flask.request.args, stream=stream,
                 restrictions=mft.restrictions, features=mft.features)
-            defaults = OptionsRepository.get_default_options()
-            if stream.defaults is not None:
-                defaults = defaults.clone(**stream.defaults)
+            defaults = U.server_defaults(stream.defaults)
             dspec = U.container_spec(rows, defaults)
             aspec = ";".join(f"{L.hx(k)}={L.hx(v)}" for k, v in case["params"].items()) or "-"
             if want_model:
@@ -437,6 +446,7 @@ def run_case(case, rows, want_model=True):
                 continue
             seen.add(key)
             stats["urls"] += 1
+            stats.setdefault("url_list", []).append(f"{ctype}:{what}:{sp.path.rsplit('/', 1)[-1]}?{sp.query}")
             path_q = sp.path + ("?" + sp.query if sp.query else "")
             with a.app.test_request_context(path_q):
                 endpoint = flask.request.url_rule.endpoint if flask.request.url_rule else None
@@ -523,6 +533,20 @@ def run_case(case, rows, want_model=True):
     return fails, lines, stats
 
 
+def state_snapshot(rows):
+    """module- and class-level option state that every request shares"""
+    from dashlive.server import manifests as mfts
+    from dashlive.server.options.container import OptionsContainer
+    from dashlive.server.options.repository import OptionsRepository
+    return {
+        "global_defaults": U.container_spec(rows, OptionsRepository.get_default_options()),
+        "registry": tuple((o.cgi_name, int(o.usage), id(o.from_string), id(o.to_string))
+                          for o in OptionsRepository.get_dash_options()),
+        "manifest_map": repr(sorted((k, sorted(m.features), repr(m.restrictions)) for k, m in mfts.manifest_map.items())),
+        "object_fields": tuple(sorted(OptionsContainer.OBJECT_FIELDS)),
+    }
+
+
 def shrink(case, rows):
     params = dict(case["params"])
     changed = True
@@ -545,10 +569,12 @@ def run_e2e(ctx, ch: Channel, cases=None):
     rows, _, _ = L.registry()
     rng = ctx.rng("opt_e2e")
     n = ctx.scale(400, 8000)
+    fixed = 0
     if cases is None:
-        # every hostile argument set on the stream with its own defaults (events enabled), once on a template
-        # that lacks the eventTypes/utcMethod features and once on the full one
-        cases = []
+        # the deterministic grid (harness/c07_grid.py), then every hostile argument set on the stream with its
+        # own defaults (events enabled), once on a template that lacks the eventTypes/utcMethod features and
+        # once on the full one; then the seeded random cases
+        cases = c07_grid.grid(ctx.thorough)
         for args in U.HOSTILE_ARGS:
             if "drm" in args:
                 continue
@@ -556,9 +582,16 @@ def run_e2e(ctx, ch: Channel, cases=None):
                           "now": NOW})
             cases.append({"mode": "live", "stream": "tears", "manifest": "hand_made.mpd", "params": dict(args),
                           "now": NOW})
+        fixed = len(cases)
+        # history: the random cases run between two passes over a sample of the grid; the second pass must
+        # give the answers of the first (nothing a request does may change what a later one gets)
+        reissue = cases[:fixed:max(1, fixed // 60)]
         cases += [gen_case(rng, rows) for _ in range(n)]
+        cases += [dict(c, _reissue=True) for c in reissue]
     all_lines = []
-    for case in cases:
+    first_answer = {}
+    snap0 = state_snapshot(rows)
+    for idx, case in enumerate(cases):
         ch.evaluations += 1
         try:
             fails, lines, stats = run_case(case, rows)
@@ -567,6 +600,31 @@ def run_e2e(ctx, ch: Channel, cases=None):
             traceback.print_exc()
             ch.errors.append(f"case crashed: {type(e).__name__}: {e} on {case_url(case)}")
             continue
+        key = (case_url(case), case.get("defaults", "A"), case["now"])
+        answer = (stats["status"], tuple(sorted(stats.get("url_list", []))))
+        if case.get("_reissue"):
+            ch.count("reissued")
+            if key in first_answer and first_answer[key] != answer:
+                ch.oracle_failures.append({
+                    "case": {k: v for k, v in case.items() if k != "_reissue"}, "url": case_url(case),
+                    "first_failure": {"what": "the same manifest request, re-issued after other requests, advertises "
+                                              "other media URLs than the first time",
+                                      "first": list(first_answer[key][1])[:6], "now": list(answer[1])[:6]},
+                    "history": "re-issue after the whole channel"})
+        else:
+            first_answer.setdefault(key, answer)
+        if idx % 100 == 99 or idx == len(cases) - 1:
+            snap = state_snapshot(rows)
+            if snap != snap0:
+                ch.oracle_failures.append({
+                    "case": {k: v for k, v in case.items() if k != "_reissue"}, "url": case_url(case),
+                    "first_failure": {"what": "shared option state changed while serving requests",
+                                      "changed": [k for k in snap if snap[k] != snap0.get(k)]},
+                    "history": f"the {idx + 1} requests of this channel"})
+                snap0 = snap
+        ch.count("grid" if idx < fixed else "random")
+        ch.count(f"defaults:{case.get('defaults', 'A')}" if case["stream"] == "tears" else "defaults:none(bbb)")
+        ch.count(f"clock:{case['now']}")
         ch.count(f"manifest:{case['manifest']}:{case['mode']}")
         ch.count(f"status:{stats['status']}")
         if stats.get("recovered"):
